@@ -46,12 +46,27 @@ class World:
         elif k == "op":
             xs = [self.operand(o) for o in ev["ins"]]
             self.T[newt[0]] = mg.negative(xs[0]) if len(xs) == 1 else mg.add(xs[0], xs[1])
+        elif k == "opout":
+            xs = [self.operand(o) for o in ev["ins"]]
+            out = self.A[ev["out"]]
+            try:
+                r = mg.negative(xs[0], out=out) if len(xs) == 1 else mg.add(xs[0], xs[1], out=out)
+            except ValueError as e:  # "output array is read-only": the target aliases a (now locked) input
+                del e
+                assert not newt, "the model predicted success"
+            else:
+                assert r.data is out
+                self.T[newt[0]] = r
+                del r
+            del out, xs
         elif k == "view":
             self.T[newt[0]] = self.T[ev["t"]][...]
         elif k == "fail":
             xs = [self.operand(o) for o in ev["ins"]]
             try:
-                if len(xs) == 1:
+                if ev.get("badout"):
+                    mg.add(xs[0], xs[1], out=np.zeros(5))  # out= of the wrong shape: the forward pass raises
+                elif len(xs) == 1:
                     mg.negative(xs[0], where=_BAD_MASK)
                 else:
                     mg.add(xs[0], xs[1], where=_BAD_MASK)
